@@ -576,6 +576,42 @@ pub fn run(cfg: &Cfg, rep: &mut Report) {
             Err(e) => rep.fail("canon-total", "panic", format!("case {} {}", hex(md.as_bytes()), hex(html.as_bytes())), e),
         }
     }
+    // a definition used many times: every use resolves while the total expansion stays below the cap
+    // (100 kB or the document size, whichever is larger); written and rendered here, independently
+    for (url_len, uses, after) in [(70usize, 4usize, false), (200, 30, true), (500, 100, false), (2000, 40, true), (30, 900, false)] {
+        let url = format!("/p/{}", "a".repeat(url_len));
+        let def = format!("[Docs]: {} \"T t\"\n", url);
+        let mut md = String::new();
+        let mut html = String::new();
+        if !after {
+            md.push_str(&def);
+            md.push('\n');
+        }
+        for i in 0..uses {
+            let (src, text) = match i % 3 {
+                0 => (format!("[use {}][docs]", i), format!("use {}", i)),
+                1 => ("[DOCS][]".to_string(), "DOCS".to_string()),
+                _ => ("[docs]".to_string(), "docs".to_string()),
+            };
+            md.push_str(&format!("see {} here\n\n", src));
+            html.push_str(&format!("<p>see <a href=\"{}\" title=\"T t\">{}</a> here</p>\n", url, text));
+        }
+        if after {
+            md.push_str(&def);
+        }
+        rep.count("reference-uses-probe");
+        rep.s_evals += 1;
+        match real(&md) {
+            Ok(r) if r.html == html.as_bytes() => {}
+            Ok(r) => rep.fail(
+                "html-vs-reference",
+                "definition-used-many-times",
+                format!("case {} {}", hex(md.as_bytes()), hex(html.as_bytes())),
+                format!("{} uses of one definition ({} bytes of destination, total below the expansion cap): {}", uses, url.len(), diff_window(&r.html, html.as_bytes())),
+            ),
+            Err(e) => rep.fail("canon-total", "panic", format!("case {} {}", hex(md.as_bytes()), hex(html.as_bytes())), e),
+        }
+    }
     // shrink: smaller sizes of the same seed are different, smaller documents; report the smallest failing one
     for (seed, size) in failing {
         let reqs: Vec<String> = (0..size).map(|z| format!("canon2 {} {}", seed, z)).collect();
